@@ -500,6 +500,12 @@ func (parser *Parser) ParseExpression(depth int) (res Sexp, err error) {
 				}
 			}
 		}
+		if tok.str == "nil" {
+			// nil is data, not a variable reference: it prints as nil and must
+			// read back as nil (the global binding nil = nil still exists for
+			// symbols made at run time).
+			return SexpNull, nil
+		}
 		return env.MakeSymbol(tok.str), nil
 	case TokenSymbolColon:
 		sym := env.MakeSymbol(tok.str)
